@@ -62,13 +62,14 @@ func c20RealDirs() (c20RealObs, []Mon, bool) {
 		st.Revive()
 		st.Log = nil
 		gen0 := w.crypto.calls
-		w.watch(s, &mons)
+		w.watch(s, -1, &mons)
 		done := 0
 		var err error
 		if p := Guard(func() { err = initializer.New(st, c20Logger{&done}, mk()...).Init(context.Background()) }); p != "" {
 			mons = append(mons, Mon{Sig: "C20:panic", Why: p})
 		}
 		st.After = nil
+		st.Before = nil
 		if err != nil {
 			obs.Runs = append(obs.Runs, "err")
 			mons = append(mons, Mon{Sig: "C20:real-dirs-failed", Why: "initialisation over the real cluster/ directories failed: " + err.Error()})
